@@ -169,4 +169,6 @@ def int_to_str(I, t):
     I.prover.assume(value_of(s) == z3.ToReal(t))
     I.prover.assume(z3.PrefixOf(z3.StringVal("-"), s) == (t < 0))
     annotate(I, s, t, z3.ToReal(t), "", 0, 0, "d")
+    from .numparse import int_ok, float_ok
+    I.prover.assume(z3.And(int_ok(s), float_ok(s)))      # int(str(i)) and float(str(i)) succeed
     return Sym(VStr(s))
